@@ -5,7 +5,7 @@
    This file contains only statements closed by `exact`, their assumptions and non-vacuity examples.
    Generated once by tools/genprops.py from the proved lemmas (statements restated verbatim). *)
 From Coq Require Import List NArith ZArith Bool Lia Sorting.Sorted Sorting.Permutation.
-From Viv Require Import Model.Sched Model.SchedC Proofs.Sched_defs Proofs.Sched_clock_proofs Proofs.Sched_once_proofs Proofs.SchedC_witness Proofs.Sched_perm_proofs.
+From Viv Require Import Model.Sched Model.SchedC Proofs.Sched_defs Proofs.Sched_clock_proofs Proofs.Sched_once_proofs Proofs.SchedC_witness Proofs.Sched_perm_proofs Model.Views Proofs.Views_proofs.
 Import ListNotations.
 Open Scope Z_scope.
 
@@ -159,6 +159,30 @@ Theorem C04_listing_order_moot_additive :
 Proof. exact @listing_order_moot_additive. Qed.
 Print Assumptions C04_listing_order_moot_additive.
 
+(* THE VIEW IS ALWAYS CURRENT: through any run - passes of polling, each followed by the application of the due updates (structural or not) and the step phase with its layers - every process and every step is handed the cached view of the hierarchy as it is at that moment, provided Store.apply_update reports view_expire whenever the node structure changes (Engine._send_updates / run_steps rebuild rule) *)
+Theorem C04_views_always_current :
+  forall (S U R : Type) (refs : S -> R) (app : S -> U -> S * bool),
+         (forall (s : S) (u : U), snd (app s u) = false -> refs (fst (app s u)) = refs s) ->
+         forall (passes : list (list (step_fn S U R) * list (list (step_fn S U R))))
+           (st st' : vst S R) (ev : list (vev R)),
+         Inv S R refs st ->
+         run_passes S U R refs app vcur passes st = (st', ev) ->
+         Inv S R refs st' /\ Forall (ev_ok R) ev.
+Proof. exact @views_always_current. Qed.
+Print Assumptions C04_views_always_current.
+
+(* ... one Engine._send_updates call preserves "cache = structure of the current store" and every step invocation inside it reads a current view *)
+Theorem C04_send_updates_inv :
+  forall (S U R : Type) (refs : S -> R) (app : S -> U -> S * bool),
+         (forall (s : S) (u : U), snd (app s u) = false -> refs (fst (app s u)) = refs s) ->
+         forall (us : list U) (layers : list (list (step_fn S U R))) (st st' : vst S R)
+           (ev : list (vev R)),
+         Inv S R refs st ->
+         send_updates S U R refs app vcur us layers st = (st', ev) ->
+         Inv S R refs st' /\ Forall (ev_ok R) ev.
+Proof. exact @send_updates_inv. Qed.
+Print Assumptions C04_send_updates_inv.
+
 
 (* ---- non-vacuity: a reachable state of a concrete composite meets the hypotheses ---- *)
 Definition ex_specs : list (pid * pspec) :=
@@ -170,4 +194,8 @@ Example ex_run_ok : exists s', ex_run = (Some s', true) /\ gt _ _ _ s' = 88 /\ c
 Proof. eexists. split; [vm_compute; reflexivity|]. repeat split; vm_compute; try reflexivity. lia. Qed.
 Example ex_commit_nodup : forall s ps us, NoDup ps -> NoDup (snd (ccommit s ps us)).
 Proof. intros s ps us H. exact H. Qed.
+
+(* the premise of views_always_current is satisfiable, and the current rule leaves nothing stale on the schedules of the refutations *)
+Check capp_reports.
+Check current_code_ok.
 
